@@ -119,6 +119,12 @@ def run(tier):
             inst.pop("nsamples", None)
         inst.pop("noise", None)
         insts.append(inst)
+    # results whose arrays went through every growth path of the model: soft and hard restarts that ADD interpolation points (the per-point arrays are
+    # re-allocated: evaluation numbers must stay integers), growing sets, with and without the diagnostic table
+    for j in range(16 if tier == "quick" else 300):
+        nn = 2 + j % 2
+        insts.append(dict(id=200000 + j, seed=int(rng.integers(0, 2 ** 31 - 1)), n=nn, m=nn + 1, prob="nl", restarts=["soft", "soft", "hard", "soft"][j % 4], maxunsucc=4, rhoend=1e-2,
+                          incnpt=1 + j % 2, maxfun=int(rng.integers(60, 200)), diag=bool(j % 3 == 0), noise_sd=1e-3 if j % 5 == 0 else 0.0))
     tcov, _ = sc.trace_part("C20", insts, V, os.path.join(wd, "traces"))
     cov = dict(states=r["distinct"], transitions=r["generated"], synthetic_results=nres, traces_validated_against_impl=tcov["traces_validated_against_impl"] + nres,
                evaluations=nres + tcov["evaluations"], distinct_nontrivial=nres + tcov["distinct_nontrivial"], solver_outcomes=tcov["outcomes"],
